@@ -40,6 +40,8 @@ Section Closure.
   Hypothesis P_new : forall src memo, P _ (new_thunk src memo).
   Hypothesis P_read : forall c, P _ (read_thunk c).
   Hypothesis P_memo : forall c v, P _ (set_memo c v).
+  Hypothesis P_begin : forall c, P _ (begin_force c).
+  Hypothesis P_finish : forall c v, P _ (finish_force c v).
 
   Ltac P_lift := apply P_lift0; constructor.
 
@@ -146,8 +148,9 @@ Section Closure.
     Proof.
       intros c. unfold force_cell. apply P_bind; [apply P_read|]. intros [t|]; [|apply P_raise].
       destruct (t_memo t); [apply P_ret|]. destruct (t_src t) as [e env|v].
-      - destruct (cc [] e); [|apply P_raise]. apply P_bind; [apply Hev|]. intros v.
-        apply P_bind; [apply P_memo|]. intros; apply P_ret.
+      - destruct (cc [] e); [|apply P_raise]. apply P_bind; [apply P_begin|]. intros _.
+        apply P_bind; [apply Hev|]. intros v.
+        apply P_bind; [apply P_finish|]. intros; apply P_ret.
       - apply P_bind; [apply P_memo|]. intros; apply P_ret.
     Qed.
 
@@ -330,23 +333,42 @@ Proof.
   - split; [lia|]. intros x t Hx. exists t. auto.
 Qed.
 
+Lemma keeps_begin : forall c, keeps _ (begin_force c).
+Proof.
+  unfold keeps, begin_force. intros c s r s1 H. destruct (memo_of s c); inversion H; subst; try apply kept_refl.
+  split; [exists []; reflexivity|]. split; [simpl; lia|]. intros x t Hx. exists t. auto.
+Qed.
+
+Lemma keeps_finish : forall c v, keeps _ (finish_force c v).
+Proof.
+  unfold keeps, finish_force. intros c v s r s1 H.
+  destruct (nth_error (thunks s) c) as [t0|] eqn:E; inversion H; subst; try apply kept_refl. clear H.
+  split; [exists []; reflexivity|]. simpl.
+  split; [rewrite length_set_nth; lia|]. intros x t Hx.
+  assert (Hlen : (c < length (thunks s))%nat) by (apply nth_error_Some; congruence).
+  destruct (Nat.eq_dec c x) as [<-|Hne].
+  - rewrite nth_error_set_nth_same by assumption. eexists. split; [reflexivity|].
+    rewrite E in Hx. inversion Hx; subst. simpl. split; [reflexivity|]. intros _. discriminate.
+  - rewrite nth_error_set_nth_other by assumption. exists t. auto.
+Qed.
+
 Theorem eval_keeps : forall n env e, keeps _ (eval n env e).
 Proof.
   intros n. apply (closure keeps keeps_pure keeps_on (fun A f _ => keeps_lift A f)
-                            keeps_new keeps_read keeps_memo n).
+                            keeps_new keeps_read keeps_memo keeps_begin keeps_finish n).
 Qed.
 
 Theorem apply_keeps : forall n f args, keeps _ (apply n f args).
 Proof.
   intros n. apply (closure keeps keeps_pure keeps_on (fun A f _ => keeps_lift A f)
-                            keeps_new keeps_read keeps_memo n).
+                            keeps_new keeps_read keeps_memo keeps_begin keeps_finish n).
 Qed.
 
 (* ================================================================= 4. lockstep *)
 
 (* two stores that differ at most in the SOURCE of cell c *)
 Definition rel (c : nat) (s s' : store) : Prop :=
-  core s = core s' /\ touched s = touched s' /\ length (thunks s) = length (thunks s') /\
+  core s = core s' /\ touched s = touched s' /\ gh s = gh s' /\ length (thunks s) = length (thunks s') /\
   (forall c', c' <> c -> nth_error (thunks s) c' = nth_error (thunks s') c') /\
   option_map t_memo (nth_error (thunks s) c) = option_map t_memo (nth_error (thunks s') c).
 
@@ -387,16 +409,16 @@ Lemma sim_lift : forall c A (f : C A), sim c A (liftC f).
 Proof.
   intros c A f. split; unfold liftC.
   - intros s r s1 H. destruct (f (core s)) as [r0 c1]. inversion H; subst. exists []. reflexivity.
-  - intros s s' r s1 (Rc & Rt & Rl & Ro & Rm) H _. rewrite <- Rc.
+  - intros s s' r s1 (Rc & Rt & Rg & Rl & Ro & Rm) H _. rewrite <- Rc.
     destruct (f (core s)) as [r0 c1]. inversion H; subst.
     eexists. split; [reflexivity|]. repeat split; simpl; auto.
 Qed.
 
 Lemma sim_new : forall c src memo, sim c _ (new_thunk src memo).
 Proof.
-  intros c src memo. split; unfold new_thunk.
+  intros c src memo. split; unfold new_thunk, add_cell.
   - intros s r s1 H. inversion H; subst. exists []. reflexivity.
-  - intros s s' r s1 (Rc & Rt & Rl & Ro & Rm) H _. inversion H; subst. clear H.
+  - intros s s' r s1 (Rc & Rt & Rg & Rl & Ro & Rm) H _. inversion H; subst. clear H.
     eexists. split; [rewrite Rl; reflexivity|]. repeat split; simpl; auto.
     + rewrite !app_length. lia.
     + intros c' Hne. destruct (lt_dec c' (length (thunks s))) as [Hlt|Hge].
@@ -411,52 +433,100 @@ Lemma sim_read : forall c c0, sim c _ (read_thunk c0).
 Proof.
   intros c c0. split; unfold read_thunk.
   - intros s r s1 H. inversion H; subst. exists [c0]. reflexivity.
-  - intros s s' r s1 (Rc & Rt & Rl & Ro & Rm) H Hc. inversion H; subst. clear H.
+  - intros s s' r s1 (Rc & Rt & Rg & Rl & Ro & Rm) H Hc. inversion H; subst. clear H.
     assert (Hne : c0 <> c). { intros ->. apply Hc. simpl. auto. }
     eexists. split; [rewrite (Ro _ Hne); reflexivity|]. repeat split; simpl; auto. congruence.
+Qed.
+
+(* setting the memo of cell c0 to v in two related stores keeps them related *)
+Lemma rel_set_memo : forall c c0 v s s' t t' g g',
+  rel c s s' -> nth_error (thunks s) c0 = Some t -> nth_error (thunks s') c0 = Some t' -> g = g' ->
+  rel c (mkStore (core s) (set_nth c0 (mkThunk (t_src t) (Some v)) (thunks s)) (touched s) g)
+        (mkStore (core s') (set_nth c0 (mkThunk (t_src t') (Some v)) (thunks s')) (touched s') g').
+Proof.
+  intros c c0 v s s' t t' g g' (Rc & Rt & Rg & Rl & Ro & Rm) E E' Eg. unfold rel. simpl.
+  split; [assumption|]. split; [assumption|]. split; [assumption|].
+  assert (L : (c0 < length (thunks s))%nat) by (apply nth_error_Some; congruence).
+  assert (L' : (c0 < length (thunks s'))%nat) by lia.
+  split; [rewrite !length_set_nth; assumption|].
+  destruct (Nat.eq_dec c0 c) as [->|Hne].
+  - split.
+    + intros c' Hc'. rewrite !nth_error_set_nth_other by congruence. auto.
+    + rewrite !nth_error_set_nth_same by assumption. reflexivity.
+  - assert (Et : t = t') by (rewrite (Ro _ Hne) in E; congruence). subst t'. split.
+    + intros c' Hc'. destruct (Nat.eq_dec c0 c') as [<-|Hd].
+      * rewrite !nth_error_set_nth_same by lia. reflexivity.
+      * rewrite !nth_error_set_nth_other by assumption. auto.
+    + rewrite !nth_error_set_nth_other by assumption. assumption.
+Qed.
+
+Lemma rel_cell_exists : forall c s s' c0,
+  rel c s s' -> (nth_error (thunks s) c0 = None <-> nth_error (thunks s') c0 = None).
+Proof.
+  intros c s s' c0 (_ & _ & _ & Rl & _ & _). rewrite !nth_error_None. lia.
+Qed.
+
+Lemma rel_memo_of : forall c s s' c0, rel c s s' -> memo_of s c0 = memo_of s' c0.
+Proof.
+  intros c s s' c0 (_ & _ & _ & Rl & Ro & Rm). unfold memo_of.
+  destruct (Nat.eq_dec c0 c) as [->|Hne].
+  - destruct (nth_error (thunks s) c), (nth_error (thunks s') c); simpl in Rm; congruence.
+  - rewrite (Ro _ Hne). reflexivity.
 Qed.
 
 Lemma sim_memo : forall c c0 v, sim c _ (set_memo c0 v).
 Proof.
   intros c c0 v. split; unfold set_memo.
   - intros s r s1 H. inversion H; subst. exists []. reflexivity.
-  - intros s s' r s1 (Rc & Rt & Rl & Ro & Rm) H _. inversion H; subst. clear H.
-    eexists. split; [reflexivity|]. unfold rel. simpl. split; [assumption|]. split; [assumption|].
-    destruct (Nat.eq_dec c0 c) as [->|Hne].
-    + (* the memo of the cell whose source differs *)
-      destruct (nth_error (thunks s) c) as [t|] eqn:E; destruct (nth_error (thunks s') c) as [t'|] eqn:E';
-        simpl in Rm; try discriminate.
-      * assert (L : (c < length (thunks s))%nat) by (apply nth_error_Some; congruence).
-        assert (L' : (c < length (thunks s'))%nat) by lia.
-        split; [rewrite !length_set_nth; assumption|]. split.
-        -- intros c' Hc'. rewrite !nth_error_set_nth_other by congruence. auto.
-        -- rewrite !nth_error_set_nth_same by assumption. reflexivity.
-      * split; [assumption|]. split; [assumption|]. rewrite E, E'. reflexivity.
-    + rewrite <- (Ro _ Hne). destruct (nth_error (thunks s) c0) as [t|] eqn:E.
-      * assert (L : (c0 < length (thunks s))%nat) by (apply nth_error_Some; congruence).
-        split; [rewrite !length_set_nth; assumption|]. split.
-        -- intros c' Hc'. destruct (Nat.eq_dec c0 c') as [<-|Hd].
-           ++ rewrite !nth_error_set_nth_same by lia. reflexivity.
-           ++ rewrite !nth_error_set_nth_other by assumption. auto.
-        -- rewrite !nth_error_set_nth_other by assumption. assumption.
-      * auto.
+  - intros s s' r s1 R H _. inversion H; subst. clear H.
+    eexists. split; [reflexivity|].
+    destruct (nth_error (thunks s) c0) as [t|] eqn:E; destruct (nth_error (thunks s') c0) as [t'|] eqn:E'.
+    + apply rel_set_memo; auto. destruct R as (_ & _ & Rg & _); assumption.
+    + apply (rel_cell_exists _ _ _ c0 R) in E'. congruence.
+    + apply (rel_cell_exists _ _ _ c0 R) in E. congruence.
+    + destruct R as (Rc & Rt & Rg & Rl & Ro & Rm). repeat split; simpl; auto.
+Qed.
+
+Lemma sim_begin : forall c c0, sim c _ (begin_force c0).
+Proof.
+  intros c c0. split; unfold begin_force.
+  - intros s r s1 H. destruct (memo_of s c0); inversion H; subst; exists []; reflexivity.
+  - intros s s' r s1 R H _. rewrite <- (rel_memo_of _ _ _ c0 R).
+    destruct R as (Rc & Rt & Rg & Rl & Ro & Rm).
+    destruct (memo_of s c0); inversion H; subst; clear H.
+    + eexists. split; [reflexivity|]. repeat split; auto.
+    + eexists. split; [reflexivity|]. rewrite Rg. repeat split; simpl; auto.
+Qed.
+
+Lemma sim_finish : forall c c0 v, sim c _ (finish_force c0 v).
+Proof.
+  intros c c0 v. split; unfold finish_force.
+  - intros s r s1 H. destruct (nth_error (thunks s) c0); inversion H; subst; exists []; reflexivity.
+  - intros s s' r s1 R H _.
+    destruct (nth_error (thunks s) c0) as [t|] eqn:E; destruct (nth_error (thunks s') c0) as [t'|] eqn:E';
+      inversion H; subst; clear H.
+    + eexists. split; [reflexivity|]. apply rel_set_memo; auto.
+      destruct R as (_ & _ & Rg & _). rewrite Rg. reflexivity.
+    + apply (rel_cell_exists _ _ _ c0 R) in E'. congruence.
+    + apply (rel_cell_exists _ _ _ c0 R) in E. congruence.
+    + eexists. split; [reflexivity|]. assumption.
 Qed.
 
 Theorem eval_sim : forall c n env e, sim c _ (eval n env e).
 Proof.
   intros c n. apply (closure (sim c) (sim_pure c) (sim_on c) (fun A f _ => sim_lift c A f)
-                            (sim_new c) (sim_read c) (sim_memo c) n).
+                            (sim_new c) (sim_read c) (sim_memo c) (sim_begin c) (sim_finish c) n).
 Qed.
 
 Theorem apply_sim : forall c n f args, sim c _ (apply n f args).
 Proof.
   intros c n. apply (closure (sim c) (sim_pure c) (sim_on c) (fun A f _ => sim_lift c A f)
-                            (sim_new c) (sim_read c) (sim_memo c) n).
+                            (sim_new c) (sim_read c) (sim_memo c) (sim_begin c) (sim_finish c) n).
 Qed.
 
 (* ================================================================= 5. force / substitute *)
 
-Definition touch (c : nat) (s : store) : store := mkStore (core s) (thunks s) (c :: touched s).
+Definition touch (c : nat) (s : store) : store := mkStore (core s) (thunks s) (c :: touched s) (gh s).
 Definition memo_set (c : nat) (v : value) (s : store) : store := snd (set_memo c v s).
 
 (* a cell that holds a memo: force returns it; nothing is evaluated, the core store (frames,
@@ -469,19 +539,40 @@ Proof.
   rewrite Ht, Hm. reflexivity.
 Qed.
 
+Lemma begin_force_done : forall c s, begin_force c s = (Done tt, snd (begin_force c s)).
+Proof. intros c s. unfold begin_force. destruct (memo_of s c); reflexivity. Qed.
+
+Lemma finish_force_done : forall c v s, finish_force c v s = (Done tt, snd (finish_force c v s)).
+Proof. intros c v s. unfold finish_force. destruct (nth_error (thunks s) c); reflexivity. Qed.
+
+(* the store in which the evaluation of the source of c starts (c logged as touched and, in the
+   ghost, as being evaluated), and the store after it ended with v (memo set, no longer in progress) *)
+Definition started (c : nat) (s : store) : store := snd (begin_force c (touch c s)).
+Definition finished (c : nat) (v : value) (s : store) : store := snd (finish_force c v s).
+
 (* the first force: the value is that of the expression, evaluated as a compile unit of its
    own in the static chain captured at the call (the caller's), in the store at force time;
    it is memoised only when the evaluation succeeds *)
 Theorem force_in_caller_env : forall n c s e env r s1,
   nth_error (thunks s) c = Some (mkThunk (TSrc e env) None) -> cc [] e = true ->
-  eval n env e (touch c s) = (r, s1) ->
+  eval n env e (started c s) = (r, s1) ->
   apply (S n) (VPrim PForce) [VThunk c] s =
-  match r with Done v => (Done v, memo_set c v s1) | _ => (r, s1) end.
+  match r with Done v => (Done v, finished c v s1) | _ => (r, s1) end.
 Proof.
-  intros n c s e env r s1 Ht Hcc He. unfold touch in He. simpl.
-  unfold force_cell, bindM, on_result, read_thunk. rewrite Ht. simpl. rewrite Hcc, He.
-  destruct r; reflexivity.
+  intros n c s e env r s1 Ht Hcc He. simpl. unfold force_cell.
+  erewrite bind_done by (unfold read_thunk; reflexivity). rewrite Ht. simpl. rewrite Hcc.
+  erewrite bind_done by (apply begin_force_done).
+  change (snd (begin_force c (mkStore (core s) (thunks s) (c :: touched s) (gh s)))) with (started c s).
+  destruct r as [v|g|].
+  - erewrite bind_done by exact He. erewrite bind_done by (apply finish_force_done). reflexivity.
+  - erewrite bind_sig by exact He. reflexivity.
+  - erewrite bind_fuel by exact He. reflexivity.
 Qed.
+
+(* the ghost does not influence what is evaluated: frames, arrays, trace, cells of the start store *)
+Lemma started_same : forall c s,
+  core (started c s) = core s /\ thunks (started c s) = thunks s /\ touched (started c s) = c :: touched s.
+Proof. intros c s. unfold started, begin_force, touch. destruct (memo_of _ c); simpl; auto. Qed.
 
 Theorem force_uncompilable : forall n c s e env,
   nth_error (thunks s) c = Some (mkThunk (TSrc e env) None) -> cc [] e = false ->
@@ -529,12 +620,16 @@ Proof.
   - apply ret_inv in Hk. destruct Hk as [-> <-]. exists t. simpl. auto.
   - destruct (t_src t) as [e env|w] eqn:Es.
     + destruct (cc [] e); [|discriminate].
+      apply bind_done_inv in Hk. destruct Hk as (u0 & sb & Hb & Hk).
       apply bind_done_inv in Hk. destruct Hk as (v0 & s2 & Hev & Hk).
       apply bind_done_inv in Hk. destruct Hk as (u & s3 & Hm & Hret).
       apply ret_inv in Hret. destruct Hret as [-> <-].
+      pose proof (keeps_begin _ _ _ _ Hb) as (_ & _ & Kb).
+      destruct (Kb c t E) as (tb & Eb & _).
       pose proof (eval_keeps _ _ _ _ _ _ Hev) as (_ & _ & K).
-      destruct (K c t E) as (t2 & E2 & _). unfold set_memo in Hm. inversion Hm; subst s3. clear Hm.
-      simpl. rewrite E2. eexists. split; [apply nth_error_set_nth_same; apply nth_error_Some; congruence|].
+      destruct (K c tb Eb) as (t2 & E2 & _). unfold finish_force in Hm. rewrite E2 in Hm.
+      inversion Hm; subst s3. clear Hm.
+      simpl. eexists. split; [apply nth_error_set_nth_same; apply nth_error_Some; congruence|].
       reflexivity.
     + apply bind_done_inv in Hk. destruct Hk as (u & s3 & Hm & Hret).
       apply ret_inv in Hret. destruct Hret as [-> <-].
@@ -576,8 +671,7 @@ Proof. intros. eapply force_at_most_once; eauto. eapply eval_keeps; eauto. Qed.
    cell records the expression and the CALLER's static chain *)
 Theorem lazy_position_only_allocates : forall ev env e s,
   prep_arg ev env true e s =
-  (Done (VThunk (length (thunks s))),
-   mkStore (core s) (thunks s ++ [mkThunk (TSrc e env) None]) (touched s)).
+  (Done (VThunk (length (thunks s))), add_cell s (mkThunk (TSrc e env) None)).
 Proof. reflexivity. Qed.
 
 Theorem strict_position_evaluates : forall ev env e s,
@@ -591,8 +685,7 @@ Inductive run_prep (ev : list nat -> expr -> M value) (env : list nat) :
 | rp_nil : forall flags s, run_prep ev env flags [] s [] s
 | rp_lazy : forall flags e r s vs s2,
     hd false flags = true ->
-    run_prep ev env (tl flags) r
-             (mkStore (core s) (thunks s ++ [mkThunk (TSrc e env) None]) (touched s)) vs s2 ->
+    run_prep ev env (tl flags) r (add_cell s (mkThunk (TSrc e env) None)) vs s2 ->
     run_prep ev env flags (e :: r) s (VThunk (length (thunks s)) :: vs) s2
 | rp_strict : forall flags e r s v s1 vs s2,
     hd false flags = false -> cc [] e = true ->
@@ -693,11 +786,9 @@ Theorem lazy_not_forced_no_effect_apply : forall c n f args s s' r s1,
 Proof. intros c n f args. apply (proj2 (apply_sim c n f args)). Qed.
 
 Lemma rel_alloc : forall s src src' memo,
-  rel (length (thunks s))
-      (mkStore (core s) (thunks s ++ [mkThunk src memo]) (touched s))
-      (mkStore (core s) (thunks s ++ [mkThunk src' memo]) (touched s)).
+  rel (length (thunks s)) (add_cell s (mkThunk src memo)) (add_cell s (mkThunk src' memo)).
 Proof.
-  intros s src src' memo. unfold rel. simpl. split; [reflexivity|]. split; [reflexivity|].
+  intros s src src' memo. unfold rel, add_cell. simpl. split; [reflexivity|]. split; [reflexivity|]. split; [reflexivity|].
   split; [rewrite !app_length; reflexivity|]. split.
   - intros c' Hne. destruct (lt_dec c' (length (thunks s))) as [Hlt|Hge].
     + rewrite !nth_error_app1 by lia. reflexivity.
@@ -761,8 +852,7 @@ Qed.
 (* a cell made by apply / map is already forced: it holds the value it wraps *)
 Theorem wrap_arg_forced : forall v s,
   wrap_arg true v s =
-  (Done (VThunk (length (thunks s))),
-   mkStore (core s) (thunks s ++ [mkThunk (TVal v) (Some v)]) (touched s)).
+  (Done (VThunk (length (thunks s))), add_cell s (mkThunk (TVal v) (Some v))).
 Proof. reflexivity. Qed.
 
 (* the formals are bound positionally to the prepared arguments *)
@@ -875,10 +965,15 @@ Proof. unfold tgrows, read_thunk. intros. inversion H; subst. exists []. reflexi
 Lemma tgrows_memo : forall c v, tgrows _ (set_memo c v).
 Proof. unfold tgrows, set_memo. intros. inversion H; subst. exists []. reflexivity. Qed.
 
+Lemma tgrows_begin : forall c, tgrows _ (begin_force c).
+Proof. unfold tgrows, begin_force. intros c s r s1 H. destruct (memo_of s c); inversion H; subst; exists []; reflexivity. Qed.
+Lemma tgrows_finish : forall c v, tgrows _ (finish_force c v).
+Proof. unfold tgrows, finish_force. intros c v s r s1 H. destruct (nth_error _ c); inversion H; subst; exists []; reflexivity. Qed.
+
 Theorem eval_trace_grows : forall n env e, tgrows _ (eval n env e).
-Proof. intros n. apply (closure tgrows tgrows_pure tgrows_on tgrows_lift tgrows_new tgrows_read tgrows_memo n). Qed.
+Proof. intros n. apply (closure tgrows tgrows_pure tgrows_on tgrows_lift tgrows_new tgrows_read tgrows_memo tgrows_begin tgrows_finish n). Qed.
 Theorem apply_trace_grows : forall n f args, tgrows _ (apply n f args).
-Proof. intros n. apply (closure tgrows tgrows_pure tgrows_on tgrows_lift tgrows_new tgrows_read tgrows_memo n). Qed.
+Proof. intros n. apply (closure tgrows tgrows_pure tgrows_on tgrows_lift tgrows_new tgrows_read tgrows_memo tgrows_begin tgrows_finish n). Qed.
 
 Lemma prep_args_trace_grows : forall n env flags es, tgrows _ (prep_args (eval n) env flags es).
 Proof.
@@ -971,3 +1066,388 @@ Definition mixed_prog : list expr :=
 Lemma mixed_prog_outcome :
   eval_program 40 mixed_prog = mkOutcome (Done (SvInt 4)) [[SvInt 1]; [SvInt 3]].
 Proof. vm_compute. reflexivity. Qed.
+
+(* ================================================================= 11. call-level corollaries *)
+
+Lemma bind_at : forall A B (m m' : M A) (k : A -> M B) s s', m s = m' s' -> bindM m k s = bindM m' k s'.
+Proof. intros A B m m' k s s' H. unfold bindM, on_result. rewrite H. reflexivity. Qed.
+
+Lemma hd_skipn_nth : forall (l : list bool) n, hd false (skipn n l) = nth n l false.
+Proof. intros l n. revert l. induction n as [|n IH]; intros [|b l]; simpl; auto. Qed.
+
+Lemma tl_skipn : forall (l : list bool) n, tl (skipn n l) = skipn (S n) l.
+Proof.
+  intros l n. revert l. induction n as [|n IH]; intros [|b l]; try reflexivity.
+  change (tl (skipn n l) = skipn (S n) l). apply IH.
+Qed.
+
+Lemma skipn_tl : forall (l : list bool) n, skipn n (tl l) = skipn (S n) l.
+Proof. intros [|b l] n; [destruct n|]; reflexivity. Qed.
+
+(* preparing a list of positions = preparing a prefix, then the rest with the remaining flags *)
+Lemma prep_args_app_done : forall ev env es1 es2 flags s vs1 sa,
+  prep_args ev env flags es1 s = (Done vs1, sa) ->
+  prep_args ev env flags (es1 ++ es2) s =
+  bindM (prep_args ev env (skipn (length es1) flags) es2) (fun vs2 => ret (vs1 ++ vs2)) sa.
+Proof.
+  intros ev env es1 es2. induction es1 as [|e r IH]; intros flags s vs1 sa H.
+  - simpl in H. apply ret_inv in H. destruct H as [<- <-]. simpl.
+    unfold bindM, on_result. destruct (prep_args ev env flags es2 s) as [[vs|g|] s1]; reflexivity.
+  - simpl in H. apply bind_done_inv in H. destruct H as (v & s1 & Hp & Hk).
+    apply bind_done_inv in Hk. destruct Hk as (vs0 & s2 & Hr & Hret).
+    apply ret_inv in Hret. destruct Hret as [<- <-].
+    change (length (e :: r)) with (S (length r)). rewrite <- skipn_tl.
+    generalize (IH (tl flags) s1 vs0 s2 Hr). generalize (skipn (length r) (tl flags)). intros fl IHr.
+    change (prep_args ev env flags ((e :: r) ++ es2) s)
+      with (bindM (prep_arg ev env (hd false flags) e)
+                  (fun v => vs <- prep_args ev env (tl flags) (r ++ es2) ;; ret (v :: vs)) s).
+    erewrite bind_done by exact Hp.
+    erewrite (bind_at _ _ _ _ _ s1 s2) by exact IHr.
+    unfold bindM, on_result.
+    destruct (prep_args ev env fl es2 s2) as [[vs|g|] s3]; reflexivity.
+Qed.
+
+Definition sim_bind c := P_bind (sim c) (sim_pure c) (sim_on c).
+Definition sim_ret c := P_ret (sim c) (sim_pure c).
+
+Lemma sim_prep_args : forall c n env flags es, sim c _ (prep_args (eval n) env flags es).
+Proof.
+  intros c n env flags es.
+  apply (P_prep_args (sim c) (sim_pure c) (sim_on c) (sim_new c) (eval n) (eval_sim c n)).
+Qed.
+
+(* (f a1 .. an) with f evaluating to a closure whose formal at position |args1| is lazy: if the
+   cell made for that position is never forced or substituted during the call, the argument
+   expression standing there is irrelevant: any other expression gives the same result, the
+   same trace, frames, arrays and memos (rel: the stores differ in the source of that cell only).
+   Holds for the callee given by name, alias, parameter or any computed expression (one route
+   in the code: CallExprInstr). *)
+Theorem call_lazy_arg_irrelevant : forall n env f args1 a a' args2 s fv s1 vs1 sa r s3,
+  (match f with EVar _ => true | _ => cc [] f end) = true ->
+  eval n env f s = (Done fv, s1) ->
+  nth (length args1) (lazy_flags fv) false = true ->
+  prep_args (eval n) env (lazy_flags fv) args1 s1 = (Done vs1, sa) ->
+  eval (S n) env (ECall f (args1 ++ a :: args2)) s = (r, s3) ->
+  clean (length (thunks sa)) s3 ->
+  exists s3', eval (S n) env (ECall f (args1 ++ a' :: args2)) s = (r, s3') /\
+              rel (length (thunks sa)) s3 s3'.
+Proof.
+  intros n env f args1 a a' args2 s fv s1 vs1 sa r s3 Hc Hf Hlz Hp1 Hrun Hclean.
+  assert (E : (match f with
+               | EVar _ => eval n env f
+               | _ => if cc [] f then eval n env f else raise ELoop
+               end) = eval n env f).
+  { destruct f; try reflexivity; cbv iota in Hc; rewrite Hc; reflexivity. }
+  destruct fv as [| | | | | | |nm ps rest body cenv| |]; try (simpl in Hlz; destruct (length args1); discriminate).
+  set (fv := VClos nm ps rest body cenv) in *.
+  set (flags := lazy_flags fv) in *.
+  set (c := length (thunks sa)) in *.
+  (* the computation after the cell for the position exists *)
+  set (T := fun (x : expr) =>
+              bindM (bindM (bindM (prep_arg (eval n) env true x)
+                                  (fun v => vs <- prep_args (eval n) env (skipn (S (length args1)) flags) args2 ;; ret (v :: vs)))
+                           (fun vs2 => ret (vs1 ++ vs2)))
+                    (apply n fv)).
+  assert (Hshape : forall x, eval (S n) env (ECall f (args1 ++ x :: args2)) s = T x sa).
+  { intros x. simpl. unfold call_expr. rewrite E. erewrite bind_done by exact Hf.
+    change (bindM (prep_args (eval n) env flags (args1 ++ x :: args2)) (apply n fv) s1 = T x sa).
+    unfold T. apply bind_at. rewrite (prep_args_app_done _ _ _ _ _ _ _ _ Hp1).
+    apply bind_at. simpl. rewrite hd_skipn_nth. fold flags in Hlz. rewrite Hlz. rewrite tl_skipn. reflexivity. }
+  rewrite Hshape in Hrun. rewrite Hshape.
+  (* peel the allocation on both sides *)
+  set (K := fun v : value =>
+              bindM (bindM (vs <- prep_args (eval n) env (skipn (S (length args1)) flags) args2 ;; ret (v :: vs))
+                           (fun vs2 => ret (vs1 ++ vs2)))
+                    (apply n fv)).
+  assert (HT : forall x, T x sa = K (VThunk c)
+                 (add_cell sa (mkThunk (TSrc x env) None))).
+  { intros x. unfold T, K. apply bind_at. apply bind_at.
+    erewrite bind_done by (apply lazy_position_only_allocates). reflexivity. }
+  rewrite HT in Hrun. rewrite HT.
+  assert (HK : sim c _ (K (VThunk c))).
+  { unfold K. apply sim_bind; [|intros; apply apply_sim].
+    apply sim_bind; [|intros; apply sim_ret].
+    apply sim_bind; [apply sim_prep_args|intros; apply sim_ret]. }
+  eapply (proj2 HK); [apply rel_alloc|exact Hrun|exact Hclean].
+Qed.
+
+(* ---- strict positions: the effects of each argument occur exactly once, in order ---- *)
+
+(* the trace extension of preparing the positions is the concatenation, position by position, of
+   the extension produced by the ONE evaluation of each strict argument; lazy positions add nothing *)
+Theorem positions_trace_segments : forall n env flags es s vs s',
+  run_prep (eval n) env flags es s vs s' ->
+  exists segs : list (list (list sval)),
+    length segs = length es /\
+    trace (core s') = concat (rev segs) ++ trace (core s) /\
+    forall i e, nth_error es i = Some e ->
+      (nth i flags false = true -> nth i segs [] = []) /\
+      (nth i flags false = false ->
+         exists si v si', eval n env e si = (Done v, si') /\ nth_error vs i = Some v /\
+                          trace (core si') = nth i segs [] ++ trace (core si)).
+Proof.
+  intros n env flags es s vs s' H. induction H.
+  - exists []. split; [reflexivity|]. split; [reflexivity|]. intros i e Hi. destruct i; discriminate.
+  - destruct IHrun_prep as (segs & L & T & Hpos). exists ([] :: segs).
+    split; [simpl; congruence|]. split.
+    + simpl. rewrite concat_app. simpl. rewrite app_nil_r. exact T.
+    + intros i a Hi. destruct i as [|i]; simpl in Hi.
+      * split; [reflexivity|]. intros Hf. exfalso. destruct flags; simpl in *; congruence.
+      * assert (Ef : nth (S i) flags false = nth i (tl flags) false) by (destruct flags; [destruct i|]; reflexivity).
+        rewrite Ef. simpl. apply (Hpos i a Hi).
+  - destruct IHrun_prep as (segs & L & T & Hpos).
+    destruct (eval_trace_grows _ _ _ _ _ _ H1) as [t Et].
+    exists (t :: segs). split; [simpl; congruence|]. split.
+    + simpl. rewrite concat_app. simpl. rewrite app_nil_r. rewrite T, Et, app_assoc. reflexivity.
+    + intros i a Hi. destruct i as [|i]; simpl in Hi.
+      * inversion Hi; subst a. split.
+        -- intros Hf. exfalso. destruct flags; simpl in *; congruence.
+        -- intros _. exists s, v, s1. auto.
+      * assert (Ef : nth (S i) flags false = nth i (tl flags) false) by (destruct flags; [destruct i|]; reflexivity).
+        rewrite Ef. simpl. apply (Hpos i a Hi).
+Qed.
+
+(* the call (direct, alias, parameter, computed callee): callee effects, then one segment per
+   position in order (strict: the single evaluation of that argument; lazy: nothing), then the
+   body's effects *)
+Theorem call_strict_args_exactly_once_before_body : forall n env f args s fv s1 vs s2 r s3,
+  (match f with EVar _ => true | _ => cc [] f end) = true ->
+  eval n env f s = (Done fv, s1) -> is_fn fv = true ->
+  run_prep (eval n) env (lazy_flags fv) args s1 vs s2 ->
+  apply n fv vs s2 = (r, s3) ->
+  eval (S n) env (ECall f args) s = (r, s3) /\
+  exists tc segs tb,
+    length segs = length args /\
+    trace (core s1) = tc ++ trace (core s) /\
+    trace (core s3) = tb ++ concat (rev segs) ++ tc ++ trace (core s) /\
+    forall i e, nth_error args i = Some e ->
+      (nth i (lazy_flags fv) false = true -> nth i segs [] = []) /\
+      (nth i (lazy_flags fv) false = false ->
+         exists si v si', eval n env e si = (Done v, si') /\ nth_error vs i = Some v /\
+                          trace (core si') = nth i segs [] ++ trace (core si)).
+Proof.
+  intros n env f args s fv s1 vs s2 r s3 Hc Hf Hfn Hrp Hap.
+  split; [eapply call_sequence; eauto|].
+  destruct (eval_trace_grows _ _ _ _ _ _ Hf) as [tc Ec].
+  destruct (positions_trace_segments _ _ _ _ _ _ _ Hrp) as (segs & L & T & Hpos).
+  destruct (apply_trace_grows _ _ _ _ _ _ Hap) as [tb Eb].
+  exists tc, segs, tb. split; [assumption|]. split; [assumption|]. split; [|assumption].
+  rewrite Eb, T, Ec. reflexivity.
+Qed.
+
+(* apply / map: the route itself evaluates nothing (the values were produced, each once and in
+   order, by whatever built the array or list); between the arrival of the values and the body
+   only cells are allocated *)
+Theorem apply_map_route_sequence : forall ap f vs s ws s1 r s2,
+  wrap_args (lazy_flags f) vs s = (Done ws, s1) ->
+  ap f ws s1 = (r, s2) ->
+  ap_values ap f vs s = (r, s2) /\ core s1 = core s /\ touched s1 = touched s /\
+  (forall i, nth i (lazy_flags f) false = false -> nth_error ws i = nth_error vs i).
+Proof.
+  intros ap f vs s ws s1 r s2 Hw Ha. split.
+  - unfold ap_values. erewrite bind_done by exact Hw. exact Ha.
+  - destruct (wrap_args_spec _ _ _ _ _ Hw) as (C & T & _ & S & _). auto.
+Qed.
+
+(* the elements of an array literal (how the grid hands arguments to apply / map) are each
+   evaluated exactly once, left to right *)
+Inductive run_list (ev : list nat -> expr -> M value) (env : list nat) :
+  list expr -> store -> list value -> store -> Prop :=
+| rl_nil : forall s, run_list ev env [] s [] s
+| rl_cons : forall e r s v s1 vs s2, ev env e s = (Done v, s1) -> run_list ev env r s1 vs s2 ->
+                                     run_list ev env (e :: r) s (v :: vs) s2.
+
+Theorem ev_list_iff_run_list : forall ev env es s vs s',
+  ev_list ev env es s = (Done vs, s') <-> run_list ev env es s vs s'.
+Proof.
+  intros ev env es. induction es as [|e r IH]; intros s vs s'; simpl; split; intros H.
+  - apply ret_inv in H. destruct H as [<- <-]. constructor.
+  - inversion H; subst. reflexivity.
+  - apply bind_done_inv in H. destruct H as (v & s1 & He & Hk).
+    apply bind_done_inv in Hk. destruct Hk as (vs0 & s2 & Hr & Hret).
+    apply ret_inv in Hret. destruct Hret as [<- <-]. econstructor; [eassumption|]. apply IH. assumption.
+  - inversion H as [|? ? ? v s1 vs0 ? He Hr]; subst. erewrite bind_done by exact He.
+    apply IH in Hr. erewrite bind_done by exact Hr. reflexivity.
+Qed.
+
+(* ================================================================= 12. at most one evaluation per cell *)
+
+(* ghost invariant: no cell's source was started twice, and a cell whose source was started is
+   either memoised or still (or, after a failure, forever) marked as being evaluated *)
+Definition once (s : store) : Prop :=
+  forall c, (count_occ Nat.eq_dec (evals (gh s)) c <= 1)%nat.
+Definition acct (s : store) : Prop :=
+  forall c, In c (evals (gh s)) -> memo_of s c <> None \/ In c (forcing (gh s)).
+Definition ginv (s : store) : Prop := once s /\ acct s.
+
+(* the run never started the evaluation of a cell that was already being evaluated *)
+Definition no_reentrant_force (s : store) : Prop := reent (gh s) = false.
+
+Definition gpres A (m : M A) : Prop :=
+  (forall s r s1, m s = (r, s1) -> reent (gh s) = true -> reent (gh s1) = true) /\
+  (forall s r s1, m s = (r, s1) -> ginv s -> no_reentrant_force s1 -> ginv s1).
+
+Lemma gpres_pure : forall A (r : res A), gpres A (pure r).
+Proof. intros A r. split; unfold pure; intros s r0 s1 H; inversion H; subst; auto. Qed.
+
+Lemma gpres_on : forall A B (m : M A) (k : res A -> M B),
+  gpres A m -> (forall r, gpres B (k r)) -> gpres B (on_result m k).
+Proof.
+  intros A B m k [M1 M2] Hk. split.
+  - intros s r s1 H Hr. apply on_result_inv in H. destruct H as (r0 & s0 & H1 & H2).
+    eapply (proj1 (Hk r0)); eauto.
+  - intros s r s1 H Hi Hn. apply on_result_inv in H. destruct H as (r0 & s0 & H1 & H2).
+    assert (Hn0 : no_reentrant_force s0).
+    { unfold no_reentrant_force in *. destruct (reent (gh s0)) eqn:E; [|reflexivity].
+      rewrite (proj1 (Hk r0) _ _ _ H2 E) in Hn. discriminate. }
+    eapply (proj2 (Hk r0)); eauto.
+Qed.
+
+Lemma ginv_same : forall s s1, gh s1 = gh s -> (forall c, memo_of s c <> None -> memo_of s1 c <> None) ->
+  ginv s -> ginv s1.
+Proof.
+  intros s s1 Eg Hm [Ho Ha]. split.
+  - intros c. unfold once in Ho. rewrite Eg. apply Ho.
+  - intros c Hc. rewrite Eg in *. destruct (Ha c Hc) as [Hmm|Hf]; [left; apply Hm; assumption|right; assumption].
+Qed.
+
+Lemma gpres_lift : forall A (f : C A), gpres A (liftC f).
+Proof.
+  intros A f. split; unfold liftC; intros s r s1 H; destruct (f (core s)) as [r0 c1]; inversion H; subst; simpl; auto.
+  all: try (intros Hi _; eapply ginv_same; [| |exact Hi]; [reflexivity|auto]).
+Qed.
+
+Lemma gpres_new : forall src memo, gpres _ (new_thunk src memo).
+Proof.
+  intros src memo. split; unfold new_thunk, add_cell; intros s r s1 H; inversion H; subst; simpl; auto.
+  intros Hi _. eapply ginv_same; [| |exact Hi]; [reflexivity|].
+  intros c. unfold memo_of. simpl. destruct (nth_error (thunks s) c) as [t|] eqn:E; [|congruence].
+  rewrite nth_error_app1 by (apply nth_error_Some; congruence). rewrite E. auto.
+Qed.
+
+Lemma gpres_read : forall c, gpres _ (read_thunk c).
+Proof.
+  intros c. split; unfold read_thunk; intros s r s1 H; inversion H; subst; simpl; auto.
+  all: try (intros Hi _; eapply ginv_same; [| |exact Hi]; [reflexivity|auto]).
+Qed.
+
+Lemma memo_of_set : forall s c v t x g tch,
+  nth_error (thunks s) c = Some t -> memo_of s x <> None ->
+  memo_of (mkStore (core s) (set_nth c (mkThunk (t_src t) (Some v)) (thunks s)) tch g) x <> None.
+Proof.
+  intros s c v t x g tch E Hx. unfold memo_of in *. simpl.
+  assert (L : (c < length (thunks s))%nat) by (apply nth_error_Some; congruence).
+  destruct (Nat.eq_dec c x) as [<-|Hne].
+  - rewrite nth_error_set_nth_same by assumption. simpl. discriminate.
+  - rewrite nth_error_set_nth_other by assumption. assumption.
+Qed.
+
+Lemma gpres_memo : forall c v, gpres _ (set_memo c v).
+Proof.
+  intros c v. split; unfold set_memo; intros s r s1 H; inversion H; subst; simpl; auto.
+  intros Hi _. eapply ginv_same; [| |exact Hi]; [reflexivity|].
+  intros x Hx. destruct (nth_error (thunks s) c) as [t|] eqn:E.
+  - apply memo_of_set; assumption.
+  - exact Hx.
+Qed.
+
+Lemma existsb_eqb_In : forall c l, existsb (Nat.eqb c) l = false -> ~ In c l.
+Proof.
+  intros c l H Hin. assert (existsb (Nat.eqb c) l = true); [|congruence].
+  apply existsb_exists. exists c. split; [assumption|apply Nat.eqb_refl].
+Qed.
+
+(* starting the evaluation of c: either re-entrant (flagged), or c was never started before *)
+Lemma gpres_begin : forall c, gpres _ (begin_force c).
+Proof.
+  intros c. split; unfold begin_force; intros s r s1 H; destruct (memo_of s c) eqn:Em; inversion H; subst; simpl; auto.
+  - intros Hr. rewrite Hr. reflexivity.
+  - clear H. intros [Ho Ha] Hn. unfold no_reentrant_force in Hn. simpl in Hn.
+    apply orb_false_elim in Hn. destruct Hn as [_ Hnf]. apply existsb_eqb_In in Hnf.
+    assert (Hne : ~ In c (evals (gh s))).
+    { intros Hin. destruct (Ha c Hin) as [Hm|Hf]; [congruence|contradiction]. }
+    split.
+    + intros x. simpl. destruct (Nat.eq_dec c x) as [<-|Hd].
+      * rewrite (proj1 (count_occ_not_In Nat.eq_dec _ _) Hne). lia.
+      * apply Ho.
+    + intros x Hx. simpl in Hx. simpl. destruct Hx as [<-|Hx]; [right; left; reflexivity|].
+      destruct (Ha x Hx) as [Hm|Hf]; [left; exact Hm|right; right; exact Hf].
+Qed.
+
+Lemma In_remove1 : forall c x l, In x l -> x <> c -> In x (remove1 c l).
+Proof.
+  induction l as [|y r IH]; simpl; intros H Hne; [contradiction|].
+  destruct (Nat.eqb c y) eqn:E.
+  - apply Nat.eqb_eq in E. subst y. destruct H; [congruence|assumption].
+  - destruct H; [left; assumption|right; apply IH; assumption].
+Qed.
+
+Lemma gpres_finish : forall c v, gpres _ (finish_force c v).
+Proof.
+  intros c v. split; unfold finish_force; intros s r s1 H;
+    destruct (nth_error (thunks s) c) as [t|] eqn:E; inversion H; subst; simpl; auto.
+  clear H. intros [Ho Ha] _. split.
+  - intros x. apply Ho.
+  - intros x Hx. simpl in Hx. destruct (Nat.eq_dec x c) as [->|Hne].
+    + left. unfold memo_of. simpl.
+      rewrite nth_error_set_nth_same by (apply nth_error_Some; congruence). simpl. discriminate.
+    + destruct (Ha x Hx) as [Hm|Hf].
+      * left. apply memo_of_set; assumption.
+      * right. simpl. apply In_remove1; assumption.
+Qed.
+
+Theorem eval_gpres : forall n env e, gpres _ (eval n env e).
+Proof.
+  intros n. apply (closure gpres gpres_pure gpres_on (fun A f _ => gpres_lift A f)
+                            gpres_new gpres_read gpres_memo gpres_begin gpres_finish n).
+Qed.
+
+Theorem apply_gpres : forall n f args, gpres _ (apply n f args).
+Proof.
+  intros n. apply (closure gpres gpres_pure gpres_on (fun A f _ => gpres_lift A f)
+                            gpres_new gpres_read gpres_memo gpres_begin gpres_finish n).
+Qed.
+
+(* THE UNRESTRICTED STATEMENT, under the side condition that is exactly the finding: in a run
+   that never starts evaluating a cell that is already being evaluated, the source of every cell
+   is evaluated at most once -- however often, by whom, and whenever force is applied to it, and
+   whether the evaluations succeed or fail *)
+Theorem force_at_most_once_unrestricted : forall n env e s r s1,
+  eval n env e s = (r, s1) -> ginv s -> no_reentrant_force s1 ->
+  forall c, (count_occ Nat.eq_dec (evals (gh s1)) c <= 1)%nat.
+Proof. intros n env e s r s1 H Hi Hn. apply (proj2 (eval_gpres n env e) _ _ _ H Hi Hn). Qed.
+
+Lemma ginv_init : forall failat, ginv (init_store failat).
+Proof. intros failat. split; [intros c; simpl; lia|intros c H; simpl in H; contradiction]. Qed.
+
+Lemma ev_begin_gpres : forall n env es, gpres _ (ev_begin (eval n) env es).
+Proof.
+  intros n env es.
+  apply (P_ev_begin gpres gpres_pure gpres_on (eval n) (eval_gpres n)).
+Qed.
+
+(* for whole programs *)
+Theorem program_evaluates_each_argument_at_most_once : forall n failat forms r s1,
+  ev_begin (eval n) [O] forms (init_store failat) = (r, s1) ->
+  no_reentrant_force s1 ->
+  forall c, (count_occ Nat.eq_dec (evals (gh s1)) c <= 1)%nat.
+Proof.
+  intros n failat forms r s1 H Hn.
+  apply (proj2 (ev_begin_gpres n [O] forms) _ _ _ H (ginv_init failat) Hn).
+Qed.
+
+(* the side condition is necessary and is exactly the re-entrant force: the witness program of
+   the finding starts the evaluation of cell 0 twice, and the second start is flagged *)
+Definition final_ghost (n : nat) (forms : list expr) : ghost :=
+  gh (snd (ev_begin (eval n) [O] forms (init_store O))).
+
+Lemma reentrant_prog_ghost :
+  final_ghost 40 reentrant_prog = mkGhost [] [O; O] true.
+Proof. vm_compute. reflexivity. Qed.
+
+(* what the flag means, at the only place where it is set: the evaluation of the source of c
+   starts (its memo is empty) while c is in the set of cells being evaluated *)
+Theorem reentrant_flag_set_iff : forall c s,
+  memo_of s c = None ->
+  reent (gh (snd (begin_force c s))) = (reent (gh s) || existsb (Nat.eqb c) (forcing (gh s))).
+Proof. intros c s H. unfold begin_force. rewrite H. reflexivity. Qed.
